@@ -451,7 +451,9 @@ func genMptMap(fixedVersion bool) func(r *rand.Rand, tier string, idx int) []str
 				ops = append(ops, "insbig "+p)
 			default:
 				if !fixedVersion {
-					ver += int64(r.Intn(3))
+					if ver < 1<<63-8 { // versions are non-negative int64 (block rounds): never wrap
+						ver += int64(r.Intn(3))
+					}
 					ops = append(ops, fmt.Sprintf("ver %d", ver))
 				} else {
 					ops = append(ops, "get "+p)
